@@ -70,6 +70,32 @@ fn brief(r: &CallResult) -> String {
 pub fn check(acc: &mut Acc, case: u64, sc: &Scenario, out: &Outcome, a: &Analysis<'_>, fault_free: bool) -> bool {
     let reqs = requests_of(sc);
     let mut ok = true;
+    // Byte-identical requests are still separate requests: the simulated server numbers its `status` replies (the
+    // playlist version is the count of `status` requests it has executed), so every successful `status` call must
+    // carry a number no other call carries, increasing along each caller's own sequence.
+    {
+        let mut seen: std::collections::HashMap<String, CallId> = std::collections::HashMap::new();
+        let mut last_of_caller: std::collections::HashMap<usize, u64> = std::collections::HashMap::new();
+        let mut calls: Vec<_> = a.calls().into_iter().filter(|cv| matches!(reqs.get(&cv.call), Some(Req::TypedStatus))).collect();
+        calls.sort_by_key(|cv| (cv.call.caller, cv.call.seq));
+        for cv in calls {
+            let Some((_, _, CallResult::Typed(v))) = &cv.end else { continue };
+            let Some(serial) = v.first().and_then(|s| s.strip_prefix("status:")).and_then(|s| s.parse::<u64>().ok()) else { continue };
+            acc.inc("identical_requests_checked");
+            if let Some(other) = seen.insert(v[0].clone(), cv.call) {
+                acc.violation(case, None, format!("calls c{}#{} and c{}#{} (both `status`) were handed the same reply (the server's {}th status reply): one of them did not get the reply to its own request", other.caller, other.seq, cv.call.caller, cv.call.seq, serial), sess::detail(sc, out));
+                ok = false;
+                break;
+            }
+            if let Some(prev) = last_of_caller.insert(cv.call.caller, serial) {
+                if prev >= serial {
+                    acc.violation(case, None, format!("caller {} issued two `status` requests one after another and got the server's reply #{} before #{}", cv.call.caller, prev, serial), sess::detail(sc, out));
+                    ok = false;
+                    break;
+                }
+            }
+        }
+    }
     for cv in a.calls() {
         let Some(req) = reqs.get(&cv.call) else { continue };
         let Some((_, _, result)) = &cv.end else { continue };
